@@ -317,8 +317,6 @@ def excluded_reason(m):
         return "block_depth"  # F2: CPython's static nesting limits
     if m["expr"] >= MAX_EXPR_DEPTH or m["chain"] >= MAX_CHAIN:
         return "expr_depth"  # F2: recursion limits
-    if m["odd_float"]:
-        return "nonascii_float"  # F41: float literal spelled with non-ASCII digits
     # F19 (unbounded constant folding): every generator keeps magnitudes small
     if m["num"] is None or m["numlen"] > 12:
         return "magnitude"
